@@ -511,6 +511,49 @@ C14_GEN = {
 }
 
 
+def c14_judge(group, tag):
+    """Replays streams of ONE universe into the four real reporters, parses the documents back and
+    lets Trace_Reporters judge the facts.  Returns (verdicts by id, harness records by id)."""
+    import report_parsers
+    inp = os.path.join(WORK, f"rep_in_{tag}.ndjson")
+    outp = os.path.join(WORK, f"rep_out_{tag}.ndjson")
+    parsed = os.path.join(WORK, f"rep_parsed_{tag}.ndjson")
+    write_ndjson(inp, group)
+    run_harness(["replay-reporters", inp, outp])
+    recs = read_ndjson(outp)
+    tables = report_parsers.step_tables(group[0]["universe"])
+    out = []
+    recs_all = {}
+    for rec in recs:
+        facts, info = {}, {}
+        for name, fn in report_parsers.PARSERS.items():
+            try:
+                facts[name], info[name] = fn(rec["outputs"].get(name, ""), tables)
+            except Exception as e:  # a parser crash is a malformed document
+                facts[name], info[name] = [], {"wellformed": False, "error": str(e)}
+        for name in report_parsers.PARSERS:
+            info[name].setdefault("wellformed", True)
+        info["junit"].setdefault("status_mismatch", 0)
+        lt = info["libtest"]
+        for key, dflt in (("unpaired", 0), ("n_ok", 0), ("n_failed", 0), ("n_ignored", 0),
+                          ("suite_started", 0), ("suite_result", 0)):
+            lt.setdefault(key, dflt)
+        if not lt.get("suite"):
+            lt["suite"] = {"event": "", "passed": -1, "failed": -1, "ignored": -1}
+        panics = {n: rec["panics"].get(n, "") for n in report_parsers.PARSERS}
+        out.append({"id": rec["id"], "universe": rec["universe"], "stream": rec["stream"],
+                    "facts": facts, "info": info, "panics": panics})
+        recs_all[rec["id"]] = rec
+    write_ndjson(parsed, out)
+    r = tlc("Trace_Reporters.tla", os.path.join(SPEC, "Trace_U.cfg"), workers=1,
+            env={"TRACE": parsed}, timeout=3000, tag=f"trrep{tag}", xss=True, heap="6g")
+    require_ok(r, "Trace_Reporters")
+    vs = tlc_lines(r["out"], "VERDICT")
+    if len(vs) != len(out):
+        raise ToolError(f"Trace_Reporters judged {len(vs)} of {len(out)} streams")
+    return {v["id"]: v for v in vs}, recs_all
+
+
 def check_c14(tier):
     import report_parsers
     t0 = time.time()
@@ -539,43 +582,9 @@ def check_c14(tier):
     verdicts = {}
     recs_all = {}
     for k, (_, group) in enumerate(sorted(by_uni.items())):
-        inp = os.path.join(WORK, f"rep_in_{k}.ndjson")
-        outp = os.path.join(WORK, f"rep_out_{k}.ndjson")
-        parsed = os.path.join(WORK, f"rep_parsed_{k}.ndjson")
-        write_ndjson(inp, group)
-        run_harness(["replay-reporters", inp, outp])
-        recs = read_ndjson(outp)
-        tables = report_parsers.step_tables(group[0]["universe"])
-        out = []
-        for rec in recs:
-            facts, info = {}, {}
-            for name, fn in report_parsers.PARSERS.items():
-                try:
-                    facts[name], info[name] = fn(rec["outputs"].get(name, ""), tables)
-                except Exception as e:  # a parser crash is a malformed document
-                    facts[name], info[name] = [], {"wellformed": False, "error": str(e)}
-            for name in report_parsers.PARSERS:
-                info[name].setdefault("wellformed", True)
-            info["junit"].setdefault("status_mismatch", 0)
-            lt = info["libtest"]
-            for key, dflt in (("unpaired", 0), ("n_ok", 0), ("n_failed", 0), ("n_ignored", 0),
-                              ("suite_started", 0), ("suite_result", 0)):
-                lt.setdefault(key, dflt)
-            if not lt.get("suite"):
-                lt["suite"] = {"event": "", "passed": -1, "failed": -1, "ignored": -1}
-            panics = {n: rec["panics"].get(n, "") for n in report_parsers.PARSERS}
-            out.append({"id": rec["id"], "universe": rec["universe"], "stream": rec["stream"],
-                        "facts": facts, "info": info, "panics": panics})
-            recs_all[rec["id"]] = rec
-        write_ndjson(parsed, out)
-        r = tlc("Trace_Reporters.tla", os.path.join(SPEC, "Trace_U.cfg"), workers=1,
-                env={"TRACE": parsed}, timeout=3000, tag=f"trrep{k}", xss=True, heap="6g")
-        require_ok(r, "Trace_Reporters")
-        vs = tlc_lines(r["out"], "VERDICT")
-        if len(vs) != len(out):
-            raise ToolError(f"Trace_Reporters judged {len(vs)} of {len(out)} streams")
-        for v in vs:
-            verdicts[v["id"]] = v
+        vs, recs = c14_judge(group, str(k))
+        verdicts.update(vs)
+        recs_all.update(recs)
     violations = []
     for vid, v in verdicts.items():
         for b in v["bad"]:
